@@ -3,6 +3,8 @@
 #include <cstdlib>
 #include <cstring>
 #include <cerrno>
+#include <cstdarg>
+#include <algorithm>
 #include <unistd.h>
 #include <sys/time.h>
 #include <sys/stat.h>
@@ -287,6 +289,11 @@ void *simown_asan_memcpy(void *d, const void *s, size_t n) { return simown_memcp
 void *simown_asan_memmove(void *d, const void *s, size_t n) { return simown_memmove(d, s, n); }
 void *simown_asan_memset(void *d, int c, size_t n) { return simown_memset(d, c, n); }
 char *simown_strncpy(char *d, const char *s, size_t n) { own_range(d, n); return strncpy(d, s, n); }
+// formatted output into a caller-supplied buffer is a store too (a function-level static scratch buffer filled by vsnprintf and
+// copied out at once was invisible to the oracle: seeded change C19-j)
+int simown_vsnprintf(char *d, size_t n, const char *fmt, va_list ap) { int r = vsnprintf(d, n, fmt, ap); if (n) own_range(d, r < 0 ? 1 : std::min<size_t>(n, (size_t) r + 1)); return r; }
+int simown_snprintf(char *d, size_t n, const char *fmt, ...) { va_list ap; va_start(ap, fmt); int r = simown_vsnprintf(d, n, fmt, ap); va_end(ap); return r; }
+char *simown_strncat(char *d, const char *s, size_t n) { size_t dl = strlen(d); own_range(d + dl, std::min(strlen(s), n) + 1); return strncat(d, s, n); }
 
 // ---- sanitizer plumbing -----------------------------------------------------------------------
 #if defined(SIM_SANITIZE)
